@@ -274,3 +274,24 @@ def tc_self(rng):
 
 
 ALL = [tc, sp_count, funnel_rel, funnel_lat, neg_agg_chain, lat_contention, noindex_cycle, lat_many_keys, set_reach]
+
+
+def write_only_head(rng):
+    """a looping stratum with head relations that no rule of the stratum reads: a counter walks round a cycle of n values and every step also
+    derives a bucket tuple, so the same bucket tuple is derived again every 2-3 iterations (and input rows of the bucket relations are re-derived
+    in late iterations). The write-only heads still take part in the new / delta / total protocol: a tuple already in total must not be pushed again."""
+    n = rng.choice([7, 12, 20])
+    prog = Program([Rel('seed', [T.I32]), Rel('step', [T.I32]), Rel('bucket', [T.I32]), Rel('bucket2', [T.I32, T.I32]), Rel('late', [T.I32])],
+                   [Rule([Head('step', [V('x')])], [Clause('seed', [AVar('x')])]),
+                    Rule([Head('step', [Bin('+', V('x'), K(1), n)]), Head('bucket', [Bin('+', V('x'), K(0), 3)]),
+                          Head('bucket2', [Bin('+', V('x'), K(0), 2), Bin('+', V('x'), K(0), 3)])], [Clause('step', [AVar('x')])]),
+                    Rule([Head('late', [V('b')])], [Clause('bucket', [AVar('b')]), Clause('bucket2', [AWild(), AVar('b')])])])
+
+    def inputs(rng):
+        rows = [('seed', (x,)) for x in rng.sample(range(n), rng.choice([1, 1, 2]))]
+        rows += [('bucket', (b,)) for b in rng.sample(range(3), rng.randrange(0, 3))]
+        rows += [('bucket2', (rng.randrange(2), rng.randrange(3))) for _ in range(rng.randrange(0, 3))]
+        rows = list(dict.fromkeys(rows))
+        rng.shuffle(rows)
+        return rows
+    return 'write_only_head', prog, ['seed', 'bucket', 'bucket2'], inputs
